@@ -259,6 +259,10 @@ func (d *Decoder) Write(p []byte) (n int, err error) {
 	}
 
 	for len(d.buf) > 0 {
+		// A dynamic table size update does not end "the beginning of the
+		// header block": RFC 7541 Section 4.2 lets an encoder send two of
+		// them in a row (as Encoder.WriteField does).
+		isSizeUpdate := d.buf[0]&224 == 32
 		err = d.parseHeaderFieldRepr()
 		if err == errNeedMore {
 			// Extra paranoia, making sure saveBuf won't
@@ -273,7 +277,9 @@ func (d *Decoder) Write(p []byte) (n int, err error) {
 			d.saveBuf.Write(d.buf)
 			return len(p), nil
 		}
-		d.firstField = false
+		if !isSizeUpdate {
+			d.firstField = false
+		}
 		if err != nil {
 			break
 		}
